@@ -1,5 +1,5 @@
 #!/venv/bin/python
-"""usage: tools/seed_confirm.py <ID> <dir with patch.diff demo.py meta.json> [note]
+"""usage: tools/seed_confirm.py <ID> <dir with patch.diff demo.py meta.json> [note] [dest dir name under seeded/]
 
 Confirms one seeded change (produced by a blind sub-agent that saw only the property text) and files it under
 /verif/seeded/<ID>/.  Everything runs on scratch copies of /repo under /var/tmp (never in /repo):
@@ -25,6 +25,7 @@ def sh(cmd, **kw):
 def main():
     pid, src = sys.argv[1], sys.argv[2]
     note = sys.argv[3] if len(sys.argv) > 3 else ""
+    dest = sys.argv[4] if len(sys.argv) > 4 else pid
     base = "/var/tmp/qv-base"
     if not os.path.exists(f"{base}/suite/failed.txt"):
         shutil.rmtree(base, ignore_errors=True)
@@ -98,7 +99,7 @@ def main():
         },
         "note": note,
     }
-    dst = f"{V}/seeded/{pid}"
+    dst = f"{V}/seeded/{dest}"
     os.makedirs(dst, exist_ok=True)
     shutil.copy(f"{src}/patch.diff", f"{dst}/patch.diff")
     shutil.copy(f"{src}/demo.py", f"{dst}/demo.py")
